@@ -5,7 +5,9 @@ import (
 	"context"
 	"encoding/binary"
 	"fmt"
+	"io"
 	"math"
+	rtrace "runtime/trace"
 	"strings"
 	"sync"
 
@@ -276,7 +278,7 @@ func main() {
 		})
 
 		// ---------------- span trees ----------------
-		c.Cases("trees", c.N(40_000, 400_000), 0, func(k *vf.Case) {
+		runTree := func(k *vf.Case) {
 			r := k.R
 			var delegLog []string
 			comp := r.Intn(8)
@@ -486,7 +488,17 @@ func main() {
 			if k.Index < 2 {
 				k.C.Sample(map[string]any{"family": "trees", "sampler": compName, "spans": len(nodes), "sampled": len(sampled), "recording": len(recording)})
 			}
-		})
+		}
+		c.Cases("trees", c.N(40_000, 400_000), 0, runTree)
+		// the same trees while the Go execution tracer runs: every recording span then owns a runtime/trace
+		// task and End takes its other path (it releases the span lock to end the task)
+		if err := rtrace.Start(io.Discard); err == nil {
+			c.Cases("trees-traced", c.N(10_000, 100_000), 0, func(k *vf.Case) { runTree(k); k.C.Count("trees_under_runtime_trace", 1) })
+			rtrace.Stop()
+		} else {
+			c.Inconclusive("runtime/trace could not be started: " + err.Error())
+		}
+		c.Floor("trees_under_runtime_trace", 1000)
 
 		// ---------------- custom id generator ----------------
 		c.Cases("idgen", c.N(3_000, 30_000), 0, func(k *vf.Case) {
